@@ -47,3 +47,103 @@ func VerifAddSubnet(c *Codec, lmap [2]byte, s VerifSubnet) ([]MapRecord, error) 
 
 // VerifAccRecords returns the accumulator's records (prefix sets and/or range points).
 func VerifAccRecords(c *Codec) ([]MapRecord, error) { return c.Acc.MarshalMap() }
+
+// VerifRec is an abstract data-file record (one line of the data file, already split into
+// fields); VerifMarshalRec builds the real record struct the line's UnmarshalText would build
+// and returns its real MarshalMap output.
+type VerifRec struct {
+	Kind   byte // 'Z' SOA, '&' NS (+glue when IP != nil), '+' address, 'C' CNAME, '\'' TXT, '@' MX (+address when IP != nil), 'M' resolver map, '8' ECS map, '%' subnet, ':' generic
+	Dom    []byte // owner name in text form, no trailing dot ("c.z"), "" or "." for the root
+	Wild   bool   // "*." + Dom
+	Loc    []byte // nil or 2 bytes
+	TTL    uint32
+	Target []byte // NS / CNAME / MX host, SOA primary
+	IP     []byte // 4 or 16 bytes
+	Weight uint32
+	Txt    []byte
+	Dist   uint32
+	Rtype  uint16 // for ':'
+	Lmap   [2]byte
+	Ones   int // for '%': prefix length in the 128-bit scale
+}
+
+func (r VerifRec) shared() rshared {
+	var lo Loc
+	if len(r.Loc) == 2 {
+		lo = Loc(append([]byte{}, r.Loc...))
+	}
+	return rshared{ttl: r.TTL, lo: lo, dom: r.Dom, iswildcard: r.Wild}
+}
+
+// VerifMarshalRec: see VerifRec.
+func VerifMarshalRec(c *Codec, r VerifRec) ([]MapRecord, error) {
+	var rec Record
+	switch r.Kind {
+	case 'Z':
+		s := &Rsoa{rshared: r.shared(), c: c, ns: r.Target, adm: []byte("hostmaster." + string(r.Dom))}
+		s.ser, s.ref, s.ret, s.exp, s.min = 1, 16384, 2048, 1048576, 2560
+		rec = s
+	case '&':
+		n := &Rns{c: c}
+		n.Rns1 = Rns1{rshared: r.shared(), c: c, ns: r.Target}
+		n.Rns1.iswildcard = false
+		n.Raddr = Raddr{rshared: rshared{ttl: r.TTL, lo: n.Rns1.lo, dom: r.Target}, c: c, weight: 1}
+		if r.IP != nil {
+			n.Raddr.ip = net.IP(append([]byte{}, r.IP...))
+		}
+		rec = n
+	case '+':
+		rec = &Raddr{rshared: r.shared(), c: c, ip: net.IP(append([]byte{}, r.IP...)), weight: r.Weight}
+	case 'C':
+		rec = &Rcname{rshared: r.shared(), c: c, cname: r.Target}
+	case '\'':
+		rec = &Rtxt{rshared: r.shared(), c: c, txt: r.Txt}
+	case '@':
+		m := &Rmx{c: c}
+		m.Rmx1 = Rmx1{rshared: r.shared(), c: c, mx: r.Target, dist: r.Dist}
+		m.Raddr = Raddr{rshared: rshared{ttl: r.TTL, lo: m.Rmx1.lo, dom: r.Target}, c: c, weight: 1}
+		if r.IP != nil {
+			m.Raddr.ip = net.IP(append([]byte{}, r.IP...))
+		}
+		rec = m
+	case ':':
+		rec = &Raux{rshared: r.shared(), c: c, rtype: WireType(r.Rtype), rdata: r.Txt}
+	case 'M':
+		d := r.Dom
+		if r.Wild {
+			d = append([]byte("*."), d...)
+		}
+		rec = &Ripmap{dom: d, lmap: Lmap(r.Lmap), c: c}
+	case '8':
+		d := r.Dom
+		if r.Wild {
+			d = append([]byte("*."), d...)
+		}
+		rec = (*Rcsmap)(&Ripmap{dom: d, lmap: Lmap(r.Lmap), c: c})
+	case '%':
+		var ip [16]byte
+		copy(ip[:], r.IP)
+		var loc [2]byte
+		copy(loc[:], r.Loc)
+		return VerifAddSubnet(c, r.Lmap, VerifSubnet{IP: ip, Ones: r.Ones, Loc: loc})
+	default:
+		return nil, ErrBadRType
+	}
+	if err := c.Acc.update(rec); err != nil {
+		return nil, err
+	}
+	return rec.MarshalMap()
+}
+
+// VerifFinish returns the accumulator and feature records emitted after the last line.
+func VerifFinish(c *Codec) ([]MapRecord, error) {
+	acc, err := c.Acc.MarshalMap()
+	if err != nil {
+		return nil, err
+	}
+	f, err := c.Features.MarshalMap()
+	if err != nil {
+		return nil, err
+	}
+	return append(acc, f...), nil
+}
